@@ -52,4 +52,57 @@ var trSpecs = []trSpec{
 	{name: "getWeightedSentinel", file: "vm/embedded/implementation/sentinel.go", fn: "getWeightedSentinel"},
 	{name: "rewardHistoryFirstEpoch", file: "rpc/api/embedded/shared.go", fn: "getFrontierRewardByPage", from: "epoch := lastEpoch.LastEpoch", n: 1, expr: "lastEpoch.LastEpoch - int64(pageIndex)*int64(pageSize)",
 		ins: []trIn{{"lastEpoch.LastEpoch", "int64", "lastEpoch"}, {"pageIndex", "uint32", "pageIndex"}, {"pageSize", "uint32", "pageSize"}}},
+	// ---- round 6: loops, tables, fragments of larger functions ----
+	// C12 — PoW comparison (downward loop over 8 bytes)
+	{name: "greaterDifficulty", file: "pow/pow.go", fn: "greaterDifficulty"},
+	// C11 — emission tables
+	{name: "NetworkZnnRewardPerEpoch", file: "vm/constants/embedded.go", fn: "NetworkZnnRewardPerEpoch"},
+	{name: "NetworkQsrRewardPerEpoch", file: "vm/constants/embedded.go", fn: "NetworkQsrRewardPerEpoch"},
+	// C11 — the epoch cursor (CanPerformEpochUpdate / checkAndPerformUpdateEpoch)
+	{name: "epochUpdate_nextEpoch", file: "vm/embedded/implementation/common.go", fn: "CanPerformEpochUpdate",
+		from: "_, currentEpochEndTime := context.EpochTicker().ToTime(", n: 1, expr: "uint64(epoch.LastEpoch + 1)",
+		ins: []trIn{{"epoch.LastEpoch", "int64", "lastEpoch"}}},
+	{name: "epochUpdate_tooRecent", file: "vm/embedded/implementation/common.go", fn: "CanPerformEpochUpdate",
+		from: "if frontierMomentum.Timestamp.Unix()", n: 1, outs: []string{},
+		ins: []trIn{{"frontierMomentum.Timestamp.Unix()", "int64", "frontierTs"}, {"currentEpochEndTime.Unix()", "int64", "epochEnd"}}},
+	{name: "epochUpdate_advance", file: "vm/embedded/implementation/common.go", fn: "checkAndPerformUpdateEpoch",
+		from: "epoch.LastEpoch += 1", n: 1, outs: []string{"epoch.LastEpoch"},
+		ins: []trIn{{"epoch.LastEpoch", "int64", "lastEpoch"}}},
+	// C12 — base cost of a plain send and the three inequalities of enoughPlasma
+	{name: "basePlasma_plainSend", file: "vm/plasma.go", fn: "GetBasePlasmaForAccountBlock",
+		from: "if len(block.Data)", tail: true,
+		ins: []trIn{{"len(block.Data)", "int", "dataLen"}}},
+	{name: "enoughPlasma_fused", file: "vm/vm.go", fn: "enoughPlasma", from: "if available", n: 1, outs: []string{},
+		ins: []trIn{{"available", "uint64", "available"}, {"block.FusedPlasma", "uint64", "fused"}}},
+	{name: "enoughPlasma_total", file: "vm/vm.go", fn: "enoughPlasma", from: "powPlasma := DifficultyToPlasma(block.Difficulty)", n: 3,
+		outs: []string{"block.TotalPlasma"},
+		ins: []trIn{{"block.Difficulty", "uint64", "difficulty"}, {"block.FusedPlasma", "uint64", "fused"}, {"block.TotalPlasma", "uint64", "total"}}},
+	{name: "enoughPlasma_base", file: "vm/vm.go", fn: "enoughPlasma", from: "if block.TotalPlasma", occ: 1, n: 1, outs: []string{},
+		ins: []trIn{{"block.TotalPlasma", "uint64", "total"}, {"block.BasePlasma", "uint64", "base"}}},
+	// C05 / C03 — pure comparisons of the verifiers
+	{name: "momentum_timestampMissing", file: "verifier/momentum.go", fn: "rawMomentumVerifier.timestamp",
+		from: "if rmv.momentum.Timestamp.Unix()", n: 1, outs: []string{},
+		ins: []trIn{{"rmv.momentum.Timestamp.Unix()", "int64", "ts"}}},
+	{name: "momentum_timestampNotIncreasing", file: "verifier/momentum.go", fn: "rawMomentumVerifier.timestamp",
+		from: "if previous.TimestampUnix", n: 1, outs: []string{},
+		ins: []trIn{{"previous.TimestampUnix", "uint64", "prevTs"}, {"rmv.momentum.TimestampUnix", "uint64", "ts"}}},
+	{name: "accountBlock_amountBounds", file: "verifier/account_block.go", fn: "accountBlockVerifier.amounts",
+		from: "if abv.block.Amount.Sign()", n: 2, outs: []string{},
+		ins: []trIn{{"abv.block.Amount", "*big.Int", "amount"}}},
+	{name: "accountBlock_heightChecks", file: "verifier/account_block.go", fn: "accountBlockVerifier.previous",
+		from: "if abv.block.Height", n: 3, outs: []string{},
+		ins: []trIn{{"abv.block.Height", "uint64", "height"}, {"abv.block.PreviousHash.IsZero()", "bool", "prevHashIsZero"}}},
+	// C16 — InsertChain: rollback target, window and strictly-longer tests
+	{name: "insertChain_targetHeight", file: "protocol/chain_bridge.go", fn: "chainBridge.InsertChain",
+		from: "target, err := store.GetMomentumByHeight(head.Height - 1)", n: 1, expr: "head.Height - 1",
+		ins: []trIn{{"head.Height", "uint64", "headHeight"}}},
+	{name: "insertChain_window", file: "protocol/chain_bridge.go", fn: "chainBridge.InsertChain",
+		from: "if ourFrontier.Height-target.Height", n: 2, outs: []string{},
+		ins: []trIn{{"ourFrontier.Height", "uint64", "frontierHeight"}, {"target.Height", "uint64", "targetHeight"}, {"tail.Height", "uint64", "tailHeight"}}},
+	// C05 — election: the seed
+	{name: "findSeed", file: "consensus/election_algorithm.go", fn: "electionAlgorithm.findSeed",
+		from: "return int64(context.hashH.Height)", n: 1, expr: "int64(context.hashH.Height)",
+		ins: []trIn{{"context.hashH.Height", "uint64", "height"}}},
+	// C14 — the batch-boundary loop (slices of block pointers projected to BlockType)
+	{name: "filterBlocksToCommit", file: "chain/account_pool.go", fn: "accountPool.filterBlocksToCommit"},
 }
